@@ -71,6 +71,17 @@ def _anyall(ex, arg, is_any):
         if len(e.generators) == 1:
             g = e.generators[0]
             it = ex.eval(g.iter, env, cls)
+            if isinstance(it, SymSeq):
+                # any/all over a sequence of symbolic length: a quantified term (the body must be branch-free)
+                j = z3.FreshInt("aj")
+                env2 = dict(env)
+                ex.assign(g.target, it.at(j), env2, cls)
+                ts = [ex.pure_bool(c_, env2, cls) for c_ in g.ifs] + [ex.pure_bool(e.elt, env2, cls)]
+                ts = [t.t if isinstance(t, SBool) else z3.BoolVal(bool(t)) for t in ts]
+                rng = z3.And(0 <= j, j < it.length)
+                if is_any:
+                    return SBool(z3.Exists([j], z3.And([rng] + ts)))
+                return SBool(z3.ForAll([j], z3.Implies(z3.And([rng] + ts[:-1]), ts[-1])))
             if isinstance(it, BStr):
                 terms = []
                 for i, c in enumerate(it.chars):
@@ -587,6 +598,8 @@ def _itemgetter(ex, *items):
 
 
 def _deepcopy(ex, v, memo=None):
+    if hasattr(v, "sym_deepcopy"):
+        return v.sym_deepcopy(ex)
     memo = {} if memo is None else memo
     if id(v) in memo:
         return memo[id(v)]
